@@ -31,10 +31,19 @@ func (e4aEngine) Gen(prop string, seed int64, tier string) *Plan {
 	var scripts [][]Step
 	for t := 0; t < nt; t++ {
 		var sc []Step
-		sc = append(sc, Step{K: "begin", A: t})
+		// a third of the transactions are opened read-only and only read
+		ro := 0
+		if chance(r, 33) {
+			ro = 1
+		}
+		sc = append(sc, Step{K: "begin", A: t, B: ro})
 		n := 1 + r.IntN(4)
 		for k := 0; k < n; k++ {
-			sc = append(sc, Step{K: "op", A: t, B: pick(r, []int{0, 1, 1, 1, 2, 3, 3, 4, 5, 6}), C: r.IntN(64), D: r.IntN(64)})
+			kinds := []int{0, 1, 1, 1, 2, 3, 3, 4, 5, 6}
+			if ro == 1 {
+				kinds = []int{3, 3, 4, 5, 6}
+			}
+			sc = append(sc, Step{K: "op", A: t, B: pick(r, kinds), C: r.IntN(64), D: r.IntN(64)})
 		}
 		if chance(r, 75) {
 			sc = append(sc, Step{K: "commit", A: t})
@@ -82,6 +91,7 @@ type mtxn struct {
 	startSeq int
 	open     bool
 	dead     bool
+	readOnly bool
 }
 
 type e4aRun struct {
@@ -144,12 +154,15 @@ func runC06(p *Plan, res *Result) {
 		r.seq++
 		switch s.K {
 		case "begin":
-			txn, err := n.DB.NewTxn(n.reqCtx(), false)
+			txn, err := n.DB.NewTxn(n.reqCtx(), s.B == 1)
 			if err != nil {
 				res.HarnessErr = "NewTxn: " + err.Error()
 				return
 			}
-			r.txns[s.A] = &mtxn{txn: txn, view: copyView(r.committed), modified: map[string]bool{}, startSeq: r.seq, open: true}
+			if s.B == 1 {
+				res.Stats["read_only_txns"]++
+			}
+			r.txns[s.A] = &mtxn{txn: txn, view: copyView(r.committed), modified: map[string]bool{}, startSeq: r.seq, open: true, readOnly: s.B == 1}
 			r.shape = append(r.shape, fmt.Sprintf("b%d", s.A))
 		case "op":
 			if s.A < 0 {
@@ -159,6 +172,9 @@ func runC06(p *Plan, res *Result) {
 			}
 			t := r.txns[s.A]
 			if t == nil || !t.open || t.dead {
+				continue
+			}
+			if t.readOnly && s.B < 3 {
 				continue
 			}
 			r.applyOp(i, t, s.B, s.C, s.D, fmt.Sprintf("t%d_%d", s.A, i))
